@@ -907,7 +907,7 @@ func genCompPlan(r *rand.Rand, faults bool) *CompPlan {
 		p.Override = "cache_dir"
 	}
 	if r.IntN(5) == 0 {
-		p.Destroy = []string{"cache-first", "logger-first", "ctx-then-cache"}[r.IntN(3)]
+		p.Destroy = []string{"cache-first", "logger-first", "ctx-then-cache", "ctx-early"}[r.IntN(4)]
 	}
 	if faults {
 		// the short-write offset is enumerated by run index, so a batch covers every byte of the file
@@ -1041,6 +1041,15 @@ func runCompPlan(t *testing.T, planAny any, ctl Ctl) *Result {
 			if p.Retry {
 				faultIdx--
 			}
+			if p.Destroy == "ctx-early" {
+				// the process context ends before any change and the cache is never shut down explicitly:
+				// its janitor task is gone but still subscribed. Whatever that does to the janitor's own
+				// notifications, the other listeners of the same settings must get theirs.
+				cancel()
+				settle()
+				cacheDestroyed = true
+				destroyedState = [3]int64{cache.VerifMaxSize(c), int64(cache.VerifInterval(c)), cache.VerifMemoryCap(c)}
+			}
 			for i, ch := range p.Changes {
 				if i == len(p.Changes)-1 && p.Destroy != "" {
 					if p.Destroy == "cache-first" || p.Destroy == "ctx-then-cache" {
@@ -1161,6 +1170,20 @@ func runCompPlan(t *testing.T, planAny any, ctl Ctl) *Result {
 						res.violate("C18.b", "unaddressed-setting-changed: "+k, "update %s changed %s from %s to %s [history: %s]", ch.Doc, k, v, after.reads[k], history)
 					}
 				}
+				// C19.b: every live listener of a setting that changed has been notified of it
+				got := map[string]bool{}
+				for _, cl := range calls[ncalls:] {
+					got[cl] = true
+				}
+				for k, wantCall := range map[string]string{
+					"cache.max_cache_size":                "max=" + after.reads["cache.max_cache_size"],
+					"cache.cleanup_interval":              "interval=" + after.reads["cache.cleanup_interval"],
+					"cache.memory.memory_budget_percent": "mem=" + after.reads["cache.memory.memory_budget_percent"],
+				} {
+					if addressed[k] && before.reads[k] != after.reads[k] && !got[wantCall] {
+						res.violate("C19.b", "listener-not-notified: "+k+destroyTag(p), "update %s changed %s to %s but a listener subscribed to it was not called (calls since the update: %v) [history: %s]", ch.Doc, k, after.reads[k], calls[ncalls:], history)
+					}
+				}
 				// reference of what the components must follow (effective value: override wins)
 				if v, ok := getPath(doc, []string{"cache", "max_cache_size"}); ok {
 					n, _ := refSize(v.(string))
@@ -1204,7 +1227,7 @@ func runCompPlan(t *testing.T, planAny any, ctl Ctl) *Result {
 					}
 				}
 			}
-			if cacheDestroyed {
+			if cacheDestroyed && p.Destroy != "ctx-early" {
 				// C19.d: a component that has been shut down is not notified of any later change
 				res.Probes["change_after_cache_shutdown"]++
 				now := [3]int64{cache.VerifMaxSize(c), int64(cache.VerifInterval(c)), cache.VerifMemoryCap(c)}
@@ -1304,6 +1327,13 @@ func runCompPlan(t *testing.T, planAny any, ctl Ctl) *Result {
 	})
 	res.Nontrivial = true
 	return res
+}
+
+func destroyTag(p *CompPlan) string {
+	if p.Destroy != "" {
+		return " (" + p.Destroy + ")"
+	}
+	return ""
 }
 
 func rapidTag(p *CompPlan) string {
